@@ -447,6 +447,42 @@ func TestExtendableUnusable(t *testing.T) {
 				vkit.ReportFailure(t.Name(), c, fmt.Sprintf("an extendable key (perms %08b) was accepted for PUBLISH", p), "")
 				t.Fatalf("extendable key publishes")
 			}
+			// ... nor through a link shortcut: neither by the auto-subscribe of the link request nor by publishing through the shortcut
+			if p&security.AllowRead != 0 && mask%8 == 1 {
+				ch := fmt.Sprintf("a/lk%d/", mask)
+				encL := e.b.Encrypt(e.b.RawKey(ch, p, time.Unix(0, 0), uint16(mask)))
+				if _, err := e.cl.Request(5, "link", map[string]interface{}{"name": "lx", "key": encL, "channel": ch, "subscribe": true}); err != nil {
+					t.Fatal(err)
+				}
+				full := e.b.Key(ch, security.AllowReadWrite)
+				pubs, err := e.cl.Publish(6, full+"/"+ch, []byte("to-the-link"), false)
+				if err != nil {
+					t.Fatal(err)
+				}
+				for _, pb := range pubs {
+					if pb.TopicName == ch {
+						vkit.ReportFailure(t.Name(), c, fmt.Sprintf("a link request with auto-subscribe and an extendable key (perms %08b) subscribed the connection to %s: it receives what is published there", p, ch), "")
+						t.Fatalf("extendable key subscribes through a link")
+					}
+				}
+				if p&security.AllowWrite != 0 {
+					pubs, err = e.cl.Publish(7, "lx", []byte("via-shortcut"), false)
+					if err != nil {
+						t.Fatal(err)
+					}
+					refused := false
+					for _, pb := range pubs {
+						if st, _, ok := vkit.IsErrorReply(pb); ok && st == 401 {
+							refused = true
+						}
+					}
+					if !refused {
+						vkit.ReportFailure(t.Name(), c, fmt.Sprintf("a publish through a link shortcut made with an extendable key (perms %08b) was accepted", p), "")
+						t.Fatalf("extendable key publishes through a link")
+					}
+				}
+				vkit.Record(t.Name(), map[string]interface{}{"license": v, "perm": p, "via": "link"}, vkit.OK(true, "extendable-unusable-through-link"))
+			}
 			vkit.Record(t.Name(), c, vkit.OK(true, "extendable-unusable"))
 		}
 	}
